@@ -1032,14 +1032,14 @@ func (env *SpecEnv) call(e *SExpr) SVal {
 		case "infunc":
 			// (call-site conditions) the function making the call is the named one
 			name := args[0].Val
-			top := env.st.top().fn
+			top := callerFrame(env.st).fn
 			ok := top.Name() == name || strings.HasSuffix(top.String(), "."+name) || strings.HasSuffix(top.String(), ")."+name)
 			return SVal{T: BoolLit(ok), Typ: types.Typ[types.Bool]}
 		case "callerlocal":
 			// (call-site conditions) a parameter or local of the function making the call; a
 			// caller without such a variable makes every comparison with it false
 			name := args[0].Val
-			f := env.st.top()
+			f := callerFrame(env.st)
 			// the current value first (a parameter whose address is taken lives in a cell)
 			fe2 := fv.frameEnv(env.st, f)
 			if v, ok := fe2.local(name); ok {
@@ -1348,4 +1348,15 @@ func (fv *FuncVer) ghostValue(st *State, g *Block) *Term {
 func (fv *FuncVer) ghostSVal(st *State, g *Block) SVal {
 	_, t, math := fv.ghostSort(g)
 	return SVal{T: fv.ghostValue(st, g), Typ: t, Math: math}
+}
+
+// callerFrame: the frame of the source function making a call -- compiler-made wrappers (bound
+// method closures, thunks) are looked through.
+func callerFrame(st *State) *Frame {
+	for i := len(st.frames) - 1; i >= 0; i-- {
+		if st.frames[i].fn.Synthetic == "" {
+			return st.frames[i]
+		}
+	}
+	return st.top()
 }
